@@ -79,7 +79,8 @@ where
         // 0. capacity.
         {
             let any_vec_raw = unsafe{any_vec_ptr.any_vec_raw_mut()};
-            any_vec_raw.reserve(new_len);
+            // `any_vec_raw.len == self.start` now. Reserve only what is missing.
+            any_vec_raw.reserve(new_len - any_vec_raw.len);
         }
 
         // 1. drop elements.
